@@ -458,3 +458,73 @@ package jd
 //@   ensures validObject(jsonObject(ret0))
 //@   loop "range *setKeys" invariant validObject(key)
 //@   carries C13 C08
+
+//@ contract verifDiffText
+//@   bounded
+//@   universe a verifNodesPlusStrings(TIER)
+//@   universe b verifNodesPlusStrings(TIER)
+//@   requires validNode(a) && validNode(b)
+//@   ensures_bounded ret0
+//@   carries C02
+
+//@ contract verifTextCarrier
+//@   bounded
+//@   universe d verifWellFormedDiffs(TIER)
+//@   universe options []Option(nil)
+//@   requires validNode(a) && verifWellFormed(d)
+//@   ensures_bounded ret0
+//@   carries C02
+
+//@ contract verifListMinimal
+//@   bounded
+//@   requires validNodes(a) && validNodes(b)
+//@   ensures_bounded ret0
+//@   carries C06
+
+//@ contract verifContextAdjacent
+//@   bounded
+//@   requires validNode(a) && validNode(b)
+//@   ensures_bounded ret0
+//@   carries C06
+
+//@ contract verifHunksReal
+//@   bounded
+//@   requires validNode(a) && validNode(b)
+//@   ensures_bounded ret0
+//@   carries C07
+
+//@ contract verifRenderPatchFaithful
+//@   bounded
+//@   requires validNode(a) && validNode(b) && verifPointerExpressible(a) && verifPointerExpressible(b)
+//@   ensures_bounded ret0
+//@   carries C09
+
+//@ contract verifReadPatchFaithful
+//@   bounded
+//@   universe c verifNodes(0)
+//@   requires validNode(a) && validNode(b) && validNode(c) && verifPointerExpressible(a) && verifPointerExpressible(b)
+//@   ensures_bounded ret0
+//@   carries C10
+
+//@ contract verifRenderMergeFaithful
+//@   bounded
+//@   universe a verifNullFreeNodes(TIER)
+//@   universe b verifNullFreeNodes(TIER)
+//@   universe options [][]Option{{MERGE}, {SET, MERGE}, {MULTISET, MERGE}}
+//@   requires !a.Equals(b, verifEqualOptions(options)...)
+//@   ensures_bounded ret0
+//@   carries C11
+
+//@ contract verifReadMergeFaithful
+//@   bounded
+//@   universe target verifMergeDocs(TIER)
+//@   universe patch verifMergeDocs(TIER)
+//@   ensures_bounded ret0
+//@   carries C12
+
+//@ contract verifYamlJson
+//@   bounded
+//@   universe n verifNodesPlusStrings(TIER)
+//@   requires validNode(n) && !isVoid(n)
+//@   ensures_bounded ret0
+//@   carries C16
